@@ -4,9 +4,11 @@ import (
 	"encoding/json"
 	"fmt"
 	"os"
+	"reflect"
 	"sort"
 	"strings"
 
+	"sigs.k8s.io/kustomize/api/filters/nameref"
 	"sigs.k8s.io/kustomize/api/hasher"
 	"sigs.k8s.io/kustomize/api/krusty"
 	"sigs.k8s.io/kustomize/api/resmap"
@@ -1135,6 +1137,16 @@ func c03RulesTerm(rules []krusty.VerifC03Rule) string {
 	return "(CTable [" + strings.Join(rows, "; ") + "])"
 }
 
+// c03RefCtor: the implementation under test either has the repair nameref.ResolvedFields (a field reached by
+// the rows of several kinds is settled by the first row that resolves it) or not; the observation is compared
+// with the matching model (Res/NameRefResolved.v or Res/NameRef.v).
+func c03RefCtor() string {
+	if _, ok := reflect.TypeOf(nameref.Filter{}).FieldByName("Resolved"); ok {
+		return "CRefR"
+	}
+	return "CRef"
+}
+
 // CRef term from a before/after pair of resource maps (after == nil when the transformer failed)
 func c03RefTerm(before resmap.ResMap, cls string, after resmap.ResMap) (string, bool) {
 	vals := map[string]bool{}
@@ -1167,7 +1179,7 @@ func c03RefTerm(before resmap.ResMap, cls string, after resmap.ResMap) (string, 
 			as = append(as, "(Some "+t+")")
 		}
 	}
-	return fmt.Sprintf("(CRef %s %s [%s] %s [%s])", c03CsTerm(pairs), c03NonstrTerm(vals),
+	return fmt.Sprintf("(%s %s %s [%s] %s [%s])", c03RefCtor(), c03CsTerm(pairs), c03NonstrTerm(vals),
 		strings.Join(rs, "; "), cls, strings.Join(as, "; ")), true
 }
 
